@@ -801,14 +801,27 @@ def render_canon(f, n):
     return _render_prov(f, n, True)
 
 
+def param_tokens(f):
+    """Name-independent tokens for the parameters of f: `$<type>#k` = the k-th parameter of that (sanitised) type.  Unlike a plain position this
+    survives the insertion or removal of a parameter of another type (a bool flag replaced by two wrappers)."""
+    import re as _re
+    out, seen = {}, {}
+    for p_ in f.params:
+        t = _re.sub(r'[^A-Za-z0-9]', '', (p_.get('t') or '').replace('const ', '').replace('libcellml::', '').replace('std::', ''))[:28]
+        k = seen.get(t, 0)
+        seen[t] = k + 1
+        out[p_.get('d')] = '$%s#%d' % (t, k)
+    return out
+
+
 def _render_prov(f, n, canon):
     lv = _loop_of_var(f)
-    pix = {p_.get('d'): i for i, p_ in enumerate(f.params)} if canon else {}
+    pix = param_tokens(f) if canon else {}
     depth = [0]
 
     def sub(x):
         if canon and x.get('k') == 'Ref' and x.get('dk') == 'parm' and x.get('d') in pix:
-            return {'k': 'Ref', 'dk': 'prov', 'n': '$%d' % pix[x['d']]}
+            return {'k': 'Ref', 'dk': 'prov', 'n': pix[x['d']]}
         if canon and x.get('k') == 'Ref' and x.get('dk') == 'local' and x.get('d') not in lv and depth[0] < 6:
             i_ = single_def(f, x.get('d'))
             if i_ is not None and not (i_.get('k') == 'Construct' and not i_.get('c')):   # a default-constructed local is filled later: keep its name
@@ -1535,4 +1548,15 @@ def value_of(f, e, depth=0):
                 continue
         break
     return e
+
+
+def walk_pred(F, e):
+    """walk(e) that also descends into the bodies of the functions NAMED in e (a predicate handed to an <algorithm> call by name instead of as a lambda)."""
+    for x in walk(e):
+        yield x
+        if x.get('k') == 'Ref' and x.get('dk') == 'func' and x.get('ck') in F.funcs:
+            g = F.funcs[x['ck']]
+            if len(list(g.walk())) < 120:
+                for y in g.walk():
+                    yield y
 
